@@ -146,6 +146,22 @@ func init() {
 		c.assumedExternal["(context.Context).Done (interface method, assumed not to touch gostatsd's heap; its channel is not one gostatsd made)"] = true
 		return r
 	}
+	// --- viper: a configuration read is a function of the viper object and the key. (Writes to the same object
+	// between two reads -- SetDefault, Set -- are not tracked: the contracts that use viper*() state what a function
+	// hands on of the configuration it reads, in functions that read after they have written.) ---------------------
+	for _, g := range []struct{ m, fn string }{{"GetDuration", "viper_get_int"}, {"GetInt", "viper_get_int"}, {"GetBool", "viper_get_bool"}, {"GetString", "viper_get_str"}} {
+		g := g
+		externalModels["(*github.com/spf13/viper.Viper)."+g.m] = func(fr *Frame, callee *ssa.Function, args []Val, resT types.Type, st *State, reach string, pos token.Pos) Val {
+			c := fr.c
+			declareViperFns(c)
+			c.assumedExternal["viper."+g.m+": a function of the viper object and the key (writes between reads are not tracked)"] = true
+			t := app(g.fn, c.termOf(args[0]), c.termOf(args[1]))
+			if g.m == "GetInt" || g.m == "GetDuration" {
+				c.smt.assume(rangeFact(resT, t), "")
+			}
+			return Val{T: resT, Term: t}
+		}
+	}
 	// --- logrus: Panic* never returns; reaching it is a crash ------------------------------------
 	for _, n := range []string{"Panic", "Panicf", "Panicln", "Fatal", "Fatalf", "Fatalln"} {
 		name := "(github.com/sirupsen/logrus.FieldLogger)." + n
@@ -717,4 +733,11 @@ func init() {
 	for _, n := range []string{"strings.Index", "strings.LastIndex", "strings.IndexByte", "strings.LastIndexByte", "strings.IndexRune"} {
 		externalModels[n] = idx(n)
 	}
+}
+
+
+func declareViperFns(c *FnCtx) {
+	c.smt.declareFun("viper_get_int", []string{"Int", "Str"}, "Int")
+	c.smt.declareFun("viper_get_bool", []string{"Int", "Str"}, "Bool")
+	c.smt.declareFun("viper_get_str", []string{"Int", "Str"}, "Str")
 }
